@@ -163,11 +163,15 @@ func runC11(w *worker) func(c c11Case) *Failure {
 			hop := core.FreshStruct(c.N)
 			v2 := core.RefDecode(c.N, out, hop)
 			if v1.Kind == core.VOK {
-				if v2.Kind != core.VOK {
+				if v2.Kind == core.VErr && len(v2.MissingRequired) > 0 {
+					// the intermediary turned a nil non-optional struct into an empty one, which now
+					// lacks its own required fields: normalisation, not loss of unknown fields
+					w.label("second-hop-required-after-normalisation")
+				} else if v2.Kind != core.VOK {
 					return failf("second-hop-rejected", "the writer's schema cannot read the intermediary's re-encoding: %s; %s", v2.Why, hexs(out))
 				}
-				if !v2.GrayValue {
-					if m := core.EqualStruct(c.N, hop, normal, core.EqOpts{IgnoreHolder: true, NilEmptySame: true}, "$"); m != nil {
+				if !v2.GrayValue && v2.Kind == core.VOK {
+					if m := core.EqualStruct(c.N, hop, normal, core.EqOpts{IgnoreHolder: true, NilEmptySame: true, NilStructFresh: true}, "$"); m != nil {
 						return failf("second-hop-lost-data", "value after the old-schema intermediary differs (got vs want) %s\n msg: %s\n re-encoded: %s", m, hexs(c.Msg), hexs(out))
 					}
 				}
